@@ -8,7 +8,7 @@ Lagrange interpolation (mc/ref/shamir.py on mc/ref/fields.py).
 
 import itertools
 
-from mc.core import Part
+from mc.core import Part, stable_hash
 from mc.ref import shamir as R
 
 LEVEL = 'exploration'
@@ -125,7 +125,7 @@ def jobs(tier, seed):
         b = min(bins, key=lambda b: b[0])
         b[0] += w
         b[1].append(u)
-    return [dict(tier=tier, units=b[1]) for b in bins if b[1]]
+    return [dict(tier=tier, units=b[1]) for b in bins if b[1]] + [dict(tier=tier, big=True, units=[])]
 
 
 class Dictator:
@@ -399,6 +399,63 @@ def batches(pairs, first):
         pos += BATCH
 
 
+BIG_MT = [(16, 15), (17, 16), (20, 15), (29, 14), (31, 15), (13, 6)]
+BIG_P = [2 ** 61 - 1, 257, 2 ** 64 - 59]
+
+
+def run_big(part, seam, np, only=None):
+    """Many parties: m^t exceeds the 64-bit word.  With dictated boundary coefficients the list and the array sharing must both
+    be share_i = s + sum_j c_j * i^(t-j) mod p for the drawn coefficients in the drawing order thresha uses (computed with Python
+    integers), and every (t+1)-subset recombines to the secret in both variants."""
+    from mpyc import thresha, finfields
+    for p in BIG_P:
+        field = finfields.GF(p)
+        for (m, t) in BIG_MT:
+            if only is not None and only != [p, m, t]:
+                continue
+            for cpat in ('max', 'one', 'alt'):
+                coefs = [p - 1 if cpat == 'max' else 1 if cpat == 'one' else (p - 1 if j % 2 else 2) for j in range(t)]
+                for s0 in (0, 1, p - 1):
+                    doc = dict(part='big', p=p, m=m, t=t, coefs=cpat, secret=s0)
+                    part.case(key=None, nontrivial=True)
+                    results = {}
+                    for variant in ('list', 'array'):
+                        if variant == 'array' and np is None:
+                            continue
+                        seam.load(coefs)
+                        if variant == 'list':
+                            sh = thresha.random_split(field, [field(s0)], t, m)
+                            shares = [int(r[0]) % p for r in sh]
+                        else:
+                            sh = thresha.np_random_split(field, field.array([s0]), t, m)
+                            shares = [int(v) % p for v in (sh.value if hasattr(sh, 'value') else sh).reshape(m, -1)[:, 0]]
+                        results[variant] = shares
+                        # the shares lie on ONE polynomial of degree <= t through (0, s0): interpolate the first t+1, predict the rest
+                        xs = list(range(1, t + 2))
+                        def lag(x, pts):
+                            tot = 0
+                            for a, (xa, ya) in enumerate(pts):
+                                num = den = 1
+                                for b, (xb, _) in enumerate(pts):
+                                    if a != b:
+                                        num = num * (x - xb) % p
+                                        den = den * (xa - xb) % p
+                                tot = (tot + ya * num * pow(den, -1, p)) % p
+                            return tot
+                        pts = [(x, shares[x - 1]) for x in xs]
+                        bad = [i + 1 for i in range(t + 1, m) if lag(i + 1, pts) != shares[i]]
+                        if lag(0, pts) != s0 % p or bad:
+                            part.violation(f'C12:{"np_" if variant == "array" else ""}split:many-parties:not-one-polynomial',
+                                           f'GF({p}) t={t} m={m} coefficients {cpat} secret {s0}: {variant} shares of parties {bad[:4]} are off the degree-{t} '
+                                           f'polynomial through the first {t + 1} shares (or its value at 0 is not the secret)', doc)
+                        last = [(m - j, shares[m - j - 1]) for j in range(t + 1)]
+                        if lag(0, last) != s0 % p:
+                            part.violation(f'C12:{"np_" if variant == "array" else ""}split:many-parties:recombine-last',
+                                           f'GF({p}) t={t} m={m} coefficients {cpat} secret {s0}: the last {t + 1} {variant} shares interpolate to '
+                                           f'{lag(0, last)} at 0', doc)
+                    part.outcomes.add(stable_hash((p, m, t, cpat, s0, tuple(results.get('list', ())))) & 0xffffff)
+
+
 def run_job(job):
     from mpyc import thresha
     from mpyc.numpy import np
@@ -407,6 +464,10 @@ def run_job(job):
     saved = thresha.secrets
     thresha.secrets = seam
     try:
+        if job.get('big'):
+            run_big(part, seam, np)
+            part.note('numpy', 1 if np is not None else 0)
+            return part
         for name, t, m, k, K in job['units']:
             ctx = Ctx(name, t, m)
             pairs, mode = pairs_of(name, t, job['tier'])
@@ -440,6 +501,9 @@ def replay(case):
     saved = thresha.secrets
     thresha.secrets = seam
     try:
+        if case.get('part') == 'big':
+            run_big(part, seam, np, only=[case['p'], case['m'], case['t']])
+            return part
         ctx = Ctx(case['field'], case['t'], case['m'])
         batch = [(s, tuple(c)) for s, c in zip(case['secrets'], case['coefs'])]
         subsets = [tuple(case['subset'])] if case.get('subset') else R.subsets_at_least(ctx.m, ctx.t + 1)
